@@ -260,7 +260,7 @@ def model_selftest_jobs(chk, ex):
     for dev, start in (("ChildReturnsErr", True), ("ExecveNegErrno", True), ("EnvTestInverted", False), ("WaitHoldsPipes", True),
                        ("TryWaitNoCache", True), ("EintrNotRetried", True),
                        ("EintrReturnsAtOnce", True), ("ExecveRetriesEtxtbsy", True), ("ChildClosesDupSource", True),
-                       ("PreExecLastWins", True)):
+                       ("PreExecLastWins", True), ("ChildAllocatesOnFailure", True)):
         futs[dev] = ex.submit(_selftest_dev, chk, dev, start)
     for dev in ("ParentKeepsOutWrite", "ChildKeepsInWrite"):
         futs["flow:" + dev] = ex.submit(_selftest_flow, chk, dev)
@@ -335,7 +335,16 @@ def idval(setting, own):
 HELPERS = ["h7", "h7", "h0", "k9", "h7", "h3", "k15"]   # exit(7) / exit(0) / SIGKILL / exit(3) / SIGTERM
 # the wait-sequence plans are run with each of: plain exit code, exit code >= 128 (looks like 128+SIGKILL
 # to a shell, but is a normal exit: raw status 137<<8), really killed by SIGKILL (raw status 9)
-WAIT_HELPERS = ["h7", "h137", "k9"]
+# ...s: the program stops itself (SIGSTOP) after its dump and is continued 150 ms later, then ends as named:
+# `wait` must sleep through the stop and report the TERMINATION status, `try_wait` must say "still running"
+WAIT_HELPERS = ["h7", "h137", "k9", "h7s", "k9s"]
+
+
+def helper_status(kind):
+    """raw wait status of a helper that ends the way its name says"""
+    import re
+    m = re.match(r"([hk])(\d+)", kind)
+    return int(m.group(2)) << 8 if m.group(1) == "h" else int(m.group(2))
 
 
 def helper_name(idx, stdin_pipe=False, override=None):
@@ -499,6 +508,9 @@ def execute(job):
     if inj:
         cmd += ["-i", inj]
     cmd += ["-s", SCHEDULES[job["idx"] % 3]]
+    stops = "s" in os.path.basename(helper).lstrip("hk0123456789")
+    if stops:
+        cmd.append("-D")      # a traced task never really stops: the exec'ed program is let go
     probe = job["variant"] in ("probe", "noalloc")
     for o in dplan["open"]:
         cmd += ["-f", "%d:%s:%s" % (o["fd"], "a" if o["write"] == "append" else ("w" if o["write"] else "r"), o["path"])]
@@ -526,6 +538,12 @@ def execute(job):
         p = pr
         # this process shares the open file descriptions the driver started with: their offsets tell
         # whether an inheriting child worked on these very descriptions
+        if stops and not killed:
+            # a program the tracer let go (-D) may still be on its way to its footprint and dump
+            import glob as _g, time as _t
+            t_end = _t.time() + 5
+            while not _g.glob(helper + ".*.dump") and _t.time() < t_end:
+                _t.sleep(0.01)
         inh_pos = [os.lseek(f.fileno(), 0, os.SEEK_CUR) for f in (fi, fo, fe)]
     if killed:
         with open(log, "a") as fh:
@@ -547,6 +565,12 @@ def execute(job):
             pass
     dumps = {}
     import glob as _glob
+    if stops and any(e["ev"] == "detached" for e in tr):
+        # the program was let go by the tracer and may still be on its way to its dump
+        import time as _time
+        t_end = _time.time() + 5
+        while not _glob.glob(helper + ".*.dump") and _time.time() < t_end:
+            _time.sleep(0.01)
     for dpath in _glob.glob(helper + ".*.dump"):
         d = json.loads(open(dpath).read())
         dumps[d["pid"]] = d
@@ -561,9 +585,10 @@ def execute(job):
         info = info_from_tracer(job["idx"], cr, seg) if probe else info_from_driver(job["idx"], cr, dv, rnd)
         ridx = job["idx"] + (ROUND2 if rnd == 2 else 0)
         info["pos"], info["nprog"] = pos, len(dumps)
+        info["detached_status"] = helper_status(os.path.basename(helper))
         events = assemble(ridx, cr, seg, info, dump)
         out.append({"idx": ridx, "events": events, "c": cr, "dplan": dplan, "inj": inj, "tracer": seg, "driver": dv, "dump": dump,
-                    "helper_kind": os.path.basename(helper).rstrip("rc"), "round": rnd})
+                    "helper_kind": os.path.basename(helper).rstrip("rcs"), "round": rnd})
     if any(e["ev"] == "anomaly" and e["what"] == "TimedOut" for r in out for e in r["events"]) and not c["mayHang"]:
         if job.get("timeout_ms", 4000) < 20000 and not job.get("noconfirm"):
             # a hang of the code under test is deterministic; a slow machine is not: confirm with a long watchdog
@@ -712,6 +737,8 @@ def assemble(idx, c, tr, info, dump):
                 returned = returned or e["task"] == 1
             elif t[0] == "pre":
                 out.append({"ev": "mark", "task": e["task"], "kind": "pre", "idx": int(t[1]), "execd": e["execd"]})
+            elif t[0] == "alloc":
+                out.append({"ev": "mark", "task": e["task"], "kind": "alloc", "execd": e["execd"]})
         elif k == "sys":
             ev = {"ev": "sys", "task": e["task"], "nr": e["nr"], "ret": e["ret"], "inj": e["inj"]}
             if e["nr"] == "wait4" and e["ret"] > 0:
@@ -737,6 +764,9 @@ def assemble(idx, c, tr, info, dump):
             out.append({"ev": "exit", "task": e["task"], "status": e["status"]})
         elif k == "timeout":
             out.append({"ev": "anomaly", "what": "TimedOut"})
+        elif k == "detached" and e["task"] == 2:
+            # no exit event from the tracer for a program that was let go: it ends the way its name says
+            out.append({"ev": "exit", "task": 2, "status": info["detached_status"]})
         elif k == "flood":
             out.append({"ev": "anomaly", "what": "CallFlood"})      # a task repeating a call without end
     out += info["ios"]
